@@ -14,17 +14,17 @@ def claim(i, cat, technique, text, note, ref):
 
 claim("C03", "exploration",
  "runtime monitor: round-trip/range oracle over Arch.Assembler, Decode_opcode, Machine.Disassembler on generated instruction lines",
- "Runs the real assembler/disassembler on 150 (quick) / 3000 (thorough) sampled architectures (Rsize, R, N, M, L, O, mode, opcode subset incl. dynamic families, shared-object counts, WordSize override) and, per opcode, every in-range operand tuple when the field product is small (else boundary+random in several literal notations) plus lines with one operand out of range (index = count, count+1, 2^bits; numbers beyond the field) or malformed (negative, signed, padded or empty index after the name prefix). Oracle: error, or |word| = Max_word, decodes to the opcode, disasm equals the line token-wise, asm(disasm(w)) = w; out-of-range must be an error.",
+ "Runs the real assembler/disassembler on 150 (quick) / 3000 (thorough) sampled architectures (Rsize, R, N, M, L, O, mode, opcode subset incl. dynamic families, shared-object counts, WordSize override) and, per opcode, every in-range operand tuple when the field product is small (else boundary+random in several literal spellings: decimal, 0x (lower and upper case), 0b, 0d, zero-padded decimal and binary) plus lines with one operand out of range (index = count, count+1, 2^bits; numbers beyond the field) or malformed (negative, signed, padded or empty index after the name prefix). Oracle: error, or |word| = Max_word, decodes to the opcode, disasm equals the line token-wise, asm(disasm(w)) = w; out-of-range must be an error.",
  "Trusted: /verif's operand-signature table (internal/gen/opsig.go). In-range lines that are rejected are only tallied. A surplus word after an operand-less mnemonic is outside the statement and only tallied.",
  "§3 C03")
 claim("C08", "exploration",
  "runtime monitor: bounded-exhaustive + regex-tree-directed evaluation of the live matcher table; export/import round-trip oracle over bit patterns",
- "Executes the real bmnumbers matcher table on every string of a bounded language (32 prefixes x all bodies over the 19-symbol matcher alphabet up to length 4/5) plus samples drawn from each regex's syntax tree and cross-fed to all other matchers, and round-trips every bit pattern of every type up to 12/16 bits (random + boundary beyond). Held means: no string explored was claimed by two notations and no pattern explored changed under export/import.",
+ "Executes the real bmnumbers matcher table on every string of a bounded language (32 prefixes x all bodies over the 19-symbol matcher alphabet up to length 4/5) plus samples drawn from each regex's syntax tree and cross-fed to all other matchers, requires ExportBinaryNBits(v, n) to give exactly n digits with the value unchanged whenever the pattern fits n (n = width, width+3, 63, 64, 65, 100, the number of significant bits) and an error otherwise, and round-trips every bit pattern of every type up to 12/16 bits (random + boundary beyond). Held means: no string explored was claimed by two notations and no pattern explored changed under export/import.",
  "Trusted: Go regexp, the harness's notion of 'width stated by the notation'. Unsigned decimal export carries no width (pinned by the repo's own test) so only value+type are compared there; signed export (unimplemented, returns error) and FloPoCo (external fp2bin) are inconclusive. Ambiguities with witnesses longer than the bound and outside the sampler are missed.",
  "§3 C08")
 claim("C10", "exploration",
  "runtime monitor: lock-step reference model (bonds by name) + well-formedness invariants checked after every edit of generated histories",
- "Applies every history of <=3 (quick) / <=4 (thorough) edits from a state-dependent candidate set (incl. out-of-range indices, reversed and unknown endpoints, benchmark-core attachment) to four populated base machines, plus thousands of random histories of length <=60 biased to deleting endpoints below existing bonds, to the real Bondmachine and to an independent name-based model; after each edit compares List_bonds/List_internal_inputs/List_internal_outputs and checks the raw-field invariants; JSON round trip at the leaves.",
+ "Applies every history of <=3 (quick) / <=4 (thorough) edits from a state-dependent candidate set (incl. out-of-range indices, reversed and unknown endpoints, benchmark-core attachment) to four populated base machines, plus thousands of random histories of length <=60 (one in eight on a machine with a 12-input/11-output processor and 11..13 external inputs and outputs, i.e. two-digit endpoint ids) biased to deleting endpoints below existing bonds, to the real Bondmachine and to an independent name-based model; after each edit compares List_bonds/List_internal_inputs/List_internal_outputs and checks the raw-field invariants; JSON round trip at the leaves.",
  "Trusted: the 120-line name-based model in cmd/c10. Negative indices are not offered.",
  "§3 C10")
 
